@@ -159,9 +159,8 @@ def build_handle_rx(run, prop, E):
             # (checked when every argument is junk: whichever argument the verb converts first, the conversion fails;
             #  with mixed arguments a verb may legitimately not look at the junk one, e.g. FAKE_RSSI <x> -1 = "disable")
             if badmask and all(badmask) and len(sent) == 1:
-                from props.pyparts.C05 import flatten
-                pieces = flatten(sent[0][1]) or []
-                st = pieces[3:4]          # "RSP ", verb, " ", status, ...
+                from props.pyparts.C05 import flatten, tokens_of
+                st = tokens_of(flatten(sent[0][1]))[2:3]          # RSP <verb> <status> ...
                 consumed = S.effect(verb, [z3.IntVal(0)] * argc, {"has_pm": True, "running": z3.BoolVal(False), "ready": z3.BoolVal(True), "hdr_ver": z3.IntVal(0),
                                                                    **{k: z3.IntVal(0) for k in ("toa256_base", "toa256_thr", "rssi_base", "rssi_thr", "ci_base", "ci_thr", "drop_amount", "drop_period", "rsp_delay_ms")}})
                 known_form = bool(consumed[2]) or consumed[1] is not None
